@@ -99,6 +99,9 @@ pub const ALL_GROUPS_NOTIFICATION: &str = "__world_group_";
 #[cfg(test)]
 mod tests;
 
+#[cfg(slawlor_ractor_verif)]
+pub mod verif;
+
 /// Represents a change in a process group's membership
 #[derive(Clone, Debug)]
 pub enum GroupChangeMessage {
@@ -328,6 +331,8 @@ pub fn join_scoped(scope: ScopeName, group: GroupName, actors: Vec<ActorCell>) {
         return;
     }
 
+    #[cfg(slawlor_ractor_verif)]
+    verif::point("join.filtered");
     let mut stopped_relations = Vec::new();
     let (joined, listeners) = {
         let mut entry = monitor.map.entry(key.clone()).or_default();
@@ -339,6 +344,8 @@ pub fn join_scoped(scope: ScopeName, group: GroupName, actors: Vec<ActorCell>) {
             if !processed.insert(actor.get_id()) {
                 continue;
             }
+            #[cfg(slawlor_ractor_verif)]
+            verif::point("join.actor");
             let relations = get_or_create_actor_relations(monitor, actor.get_id());
             let mut relations_guard = lock_relations(&relations);
             if actor.get_status() <= ActorStatus::Draining {
@@ -364,10 +371,14 @@ pub fn join_scoped(scope: ScopeName, group: GroupName, actors: Vec<ActorCell>) {
         (joined, group_state.listeners.clone())
     };
 
+    #[cfg(slawlor_ractor_verif)]
+    verif::point("join.released");
     for (actor, relations) in stopped_relations {
         remove_empty_actor_relations(monitor, actor, &relations);
     }
 
+    #[cfg(slawlor_ractor_verif)]
+    verif::point("join.cleaned");
     if joined.is_empty() {
         if let Occupied(entry) = monitor.map.entry(key) {
             if entry.get().members.is_empty() && entry.get().listeners.is_empty() {
@@ -383,6 +394,8 @@ pub fn join_scoped(scope: ScopeName, group: GroupName, actors: Vec<ActorCell>) {
         ));
     }
 
+    #[cfg(slawlor_ractor_verif)]
+    verif::point("join.notify_world");
     notify_world_listeners(monitor, &scope, &group, &joined, true);
 }
 
@@ -428,6 +441,8 @@ pub fn leave_scoped(scope: ScopeName, group: GroupName, actors: Vec<ActorCell>) 
         None
     };
 
+    #[cfg(slawlor_ractor_verif)]
+    verif::point("leave.released");
     let Some(listeners) = result else {
         return;
     };
@@ -451,9 +466,13 @@ pub(crate) fn leave_all(actor: ActorId) {
     let mut relations_guard = lock_relations(&relations);
     let memberships = std::mem::take(&mut relations_guard.memberships);
     drop(relations_guard);
+    #[cfg(slawlor_ractor_verif)]
+    verif::point("leave_all.taken");
     let mut removal_events = Vec::with_capacity(memberships.len());
 
     for key in memberships {
+        #[cfg(slawlor_ractor_verif)]
+        verif::point("leave_all.key");
         if let Occupied(mut entry) = monitor.map.entry(key.clone()) {
             let group_state = entry.get_mut();
             if let Some(actor_cell) = group_state.members.remove(&actor) {
@@ -469,8 +488,12 @@ pub(crate) fn leave_all(actor: ActorId) {
         }
     }
 
+    #[cfg(slawlor_ractor_verif)]
+    verif::point("leave_all.before_remove");
     remove_empty_actor_relations(monitor, actor, &relations);
 
+    #[cfg(slawlor_ractor_verif)]
+    verif::point("leave_all.notify");
     for (scope_and_group, cell, per_group_listeners) in &removal_events {
         for listener in per_group_listeners {
             let _ = listener.send_supervisor_evt(SupervisionEvent::ProcessGroupChanged(
@@ -630,6 +653,8 @@ pub fn monitor(group: GroupName, actor: ActorCell) {
     let monitor = get_monitor();
     let actor_id = actor.get_id();
     let relations = get_or_create_actor_relations(monitor, actor_id);
+    #[cfg(slawlor_ractor_verif)]
+    verif::point("monitor.created");
     let mut entry = monitor.map.entry(key.clone()).or_default();
     let mut relations_guard = lock_relations(&relations);
 
@@ -646,12 +671,16 @@ pub fn monitor(group: GroupName, actor: ActorCell) {
 
     drop(relations_guard);
     drop(entry);
+    #[cfg(slawlor_ractor_verif)]
+    verif::point("monitor.released");
     if actor.get_status() >= ActorStatus::Stopping {
         if let Occupied(entry) = monitor.map.entry(key) {
             if entry.get().members.is_empty() && entry.get().listeners.is_empty() {
                 entry.remove();
             }
         }
+        #[cfg(slawlor_ractor_verif)]
+        verif::point("monitor.cleanup");
         remove_empty_actor_relations(monitor, actor_id, &relations);
     }
 }
@@ -668,6 +697,8 @@ pub fn monitor_scope(scope: ScopeName, actor: ActorCell) {
     let monitor = get_monitor();
     let actor_id = actor.get_id();
     let relations = get_or_create_actor_relations(monitor, actor_id);
+    #[cfg(slawlor_ractor_verif)]
+    verif::point("monitor_scope.created");
     let mut entry = monitor.world_listeners.entry(key.clone()).or_default();
     let mut relations_guard = lock_relations(&relations);
 
@@ -681,12 +712,16 @@ pub fn monitor_scope(scope: ScopeName, actor: ActorCell) {
 
     drop(relations_guard);
     drop(entry);
+    #[cfg(slawlor_ractor_verif)]
+    verif::point("monitor_scope.released");
     if actor.get_status() >= ActorStatus::Stopping {
         if let Occupied(entry) = monitor.world_listeners.entry(key) {
             if entry.get().is_empty() {
                 entry.remove();
             }
         }
+        #[cfg(slawlor_ractor_verif)]
+        verif::point("monitor_scope.cleanup");
         remove_empty_actor_relations(monitor, actor_id, &relations);
     }
 }
@@ -704,6 +739,8 @@ pub fn demonitor(group_name: GroupName, actor: ActorId) {
     let monitor = get_monitor();
     let relations = get_actor_relations(monitor, actor);
 
+    #[cfg(slawlor_ractor_verif)]
+    verif::point("demonitor.read");
     if let Occupied(mut entry) = monitor.map.entry(key.clone()) {
         let mut relations_guard = relations.as_ref().map(lock_relations);
         let group_state = entry.get_mut();
@@ -733,6 +770,8 @@ pub fn demonitor_scope(scope: ScopeName, actor: ActorId) {
     let monitor = get_monitor();
     let relations = get_actor_relations(monitor, actor);
 
+    #[cfg(slawlor_ractor_verif)]
+    verif::point("demonitor_scope.read");
     if let Occupied(mut entry) = monitor.world_listeners.entry(key.clone()) {
         let mut relations_guard = relations.as_ref().map(lock_relations);
         let listeners = entry.get_mut();
@@ -751,6 +790,8 @@ pub fn demonitor_scope(scope: ScopeName, actor: ActorId) {
 /// Remove the specified [ActorId] from monitoring all groups it might be in.
 /// Used only during actor shutdown
 pub(crate) fn demonitor_all(actor: ActorId) {
+    #[cfg(slawlor_ractor_verif)]
+    verif::point("exit.published");
     let monitor = get_monitor();
     let Some(relations) = get_actor_relations(monitor, actor) else {
         return;
@@ -760,7 +801,11 @@ pub(crate) fn demonitor_all(actor: ActorId) {
     let world_monitors = std::mem::take(&mut relations_guard.world_monitors);
     drop(relations_guard);
 
+    #[cfg(slawlor_ractor_verif)]
+    verif::point("demonitor_all.taken");
     for key in group_monitors {
+        #[cfg(slawlor_ractor_verif)]
+        verif::point("demonitor_all.key");
         if let Occupied(mut entry) = monitor.map.entry(key) {
             let group_state = entry.get_mut();
             group_state
@@ -773,6 +818,8 @@ pub(crate) fn demonitor_all(actor: ActorId) {
     }
 
     for key in world_monitors {
+        #[cfg(slawlor_ractor_verif)]
+        verif::point("demonitor_all.world");
         if let Occupied(mut entry) = monitor.world_listeners.entry(key) {
             entry
                 .get_mut()
